@@ -69,6 +69,16 @@ CLAIMED["C15"] = dict(
    note="Trusted: go/ssa, the constant-folding interpreter for the small rune predicates, the goyacc runtime skeleton (compared with goyacc's own output in the thorough tier).",
    technique="weighted-cycle (Bellman-Ford) analysis of the scanner CFG with constant folding + exhaustive may-panic obligation discharge over grammar actions",
    design="4 C15")
+CLAIMED["C16"] = dict(
+   text="Exactly-once FIFO delivery is Go's; decided statically is that each script channel operation is exactly one Go channel operation on the script's channel with a faithful outcome: one receiving reflect.Select per receive form with the operand channel as its case and the received value as result; one sending select with the value converted to the channel's element type (error checked first); on the closed edge nothing is sent on, no loop body runs, the value target is not assigned, the ok target gets false (true otherwise) and the receive expression yields nil; Call/CallSlice follow the flag computed with the argument list at every call site including goroutine and deferred paths. Scheduling, order and buffering are the runtime's and are NOT decided.",
+   note="Trusted: go/ssa; reflect.Select semantics; the recover boundary of C01 for send-on-closed / double close.",
+   technique="SSA structural rules over reflect.Select sites (case literals, result uses, reachability from the closed edge) + flag/edge consistency",
+   design="4 C16")
+CLAIMED["C18"] = dict(
+   text="The mapping from the library's verdict to the process exit code is decided on the SSA of package main: 0 is returned only on the nil edge of vm.Execute's error, the non-nil edge prints exactly one line containing the error and returns 4, every other error (reading the file) is tested and returns 2, main passes the runner's result to os.Exit; vm.Execute is called once with nil options on the environment prepared with args and core.Import, with the bundled packages linked; script arguments are flag.Args()[1:] guarded by NArg. What the built binary prints and how the OS reports the exit are NOT decided.",
+   note="Trusted: go/ssa; os.Exit semantics.",
+   technique="dominance rules on SSA of the CLI (return-constant vs error-edge mapping, error-propagation rule)",
+   design="4 C18")
 NOT_YET = "checker for this property is not built yet in this revision (see DESIGN.md section 4 for the planned static rules)"
 ALL = ["C%02d" % i for i in range(1, 21)]
 
